@@ -318,6 +318,9 @@ def hdl21_naming_encoder(obj: Any) -> Any:
 
     if isinstance(obj, (Module, ExternalModule, Generator)):
         # Use qualified class names/paths
+        if isinstance(obj, Module) and obj.name is None:
+            # (Every unnamed Module would be the same - null - parameter value: different calls, one name.)
+            raise RuntimeError(f"Invalid unnamed Module {obj} as a parameter value: name it first")
         return module_qualname(obj)
 
     if isinstance(obj, (Primitive, PrimitiveCall)):
